@@ -325,12 +325,75 @@ theorem skip_initializers_wrapped :
       = some ["wrap w", "deco ", "sig g(x|)", "L2 call y = opset18.Add(x,w|)", "L2 return y"] := by
   decide +kernel
 
-/-- C13-INLINE-DANGLING: an inlined constant that is a graph output is dropped and then returned by name. -/
-theorem inline_const_output_dangling_witness :
+/-- C13-INLINE-DANGLING (fixed by b124a38): an inlined constant that is a graph output is returned as its literal
+(right-hand sides of the SSA-undoing assignments, the `return`s and the Loop trip count are printed through
+`_translate_onnx_var_ref`). -/
+theorem inline_const_output_fixed :
     (exportModel ⟨false, false, true, false⟩ 2
       ⟨"g", none, [("", 18)],
        .mk ["x"] ["k"] [] 0 [.mk "Constant" "" "" [] ["k"] [("value", .tensor 1 [] true "#0")]]⟩).toOption
-      = some ["deco ", "sig g(x|)", "L1 return k"] := by
+      = some ["deco ", "sig g(x|)", "L1 return #0"] := by
+  decide +kernel
+
+/-- C13-OPSET-NAME (fixed by 7e6d802): the module-level names of the generated text (opset aliases, `np`,
+`make_tensor`, …, the imported type names) are reserved in the unique-name mapper: a value named `opset18` is
+printed `opset18_1`. -/
+theorem opset_alias_reserved_fixed :
+    (exportModel ⟨false, false, false, false⟩ 2
+      ⟨"g", none, [("", 18)],
+       .mk ["x"] ["y"] [] 0 [.mk "Relu" "" "" ["x"] ["opset18"] [], .mk "Neg" "" "" ["opset18"] ["y"] []]⟩).toOption
+      = some ["deco ", "sig g(x|)", "L1 call opset18_1 = opset18.Relu(x|)", "L1 call y = opset18.Neg(opset18_1|)",
+              "L1 return y"] := by
+  decide +kernel
+
+/-- the loop body of the two break-loop statements: `s_out = Add(s_in, x); c_out = Less(s_out, x)` -/
+def breakBody : Graph :=
+  .mk ["i", "c_in", "s_in"] ["c_out", "s_out"] [] 0
+    [.mk "Add" "" "" ["s_in", "x"] ["s_out"] [], .mk "Less" "" "" ["s_out", "x"] ["c_out"] []]
+
+/-- C13-LOOP-BREAK-NOINIT (fixed by 413fb60): a Loop with a trip count and a computed condition but **no initial
+condition** is printed `for …: <body>; c_in = Not(c_out); <hand-over>; if c_in: break` — the form the converter
+accepts. -/
+theorem loop_break_last_fixed :
+    (exportModel ⟨false, false, false, false⟩ 3 ⟨"g", none, [("", 18)],
+        .mk ["x", "n"] ["y"] [] 0 [.mk "Loop" "" "" ["n", "", "x"] ["y"] [("body", .graph breakBody)]]⟩).toOption
+      = some ["deco ", "sig g(x,n|)", "L1 assign s_in = x", "L1 for i n", "L2 call s_out = opset18.Add(s_in,x|)",
+              "L2 call c_out = opset18.Less(s_out,x|)", "L2 call c_in = opset18.Not(c_out|)", "L2 assign s_in = s_out",
+              "L2 breakif c_in", "L1 assign y = s_in", "L1 return y"] := by
+  decide +kernel
+
+/-- C13-LOOP-BREAK (open, narrowed): the same loop **with** an initial condition input is still printed with the
+break first, on `not c_in` (`forbreak`), which the converter refuses. -/
+theorem loop_break_with_initial_condition_witness :
+    (exportModel ⟨false, false, false, false⟩ 3 ⟨"g", none, [("", 18)],
+        .mk ["x", "n", "c0"] ["y"] [] 0 [.mk "Loop" "" "" ["n", "c0", "x"] ["y"] [("body", .graph breakBody)]]⟩).toOption
+      = some ["deco ", "sig g(x,n,c0|)", "L1 assign c_in = c0", "L1 assign s_in = x", "L1 forbreak i n c_in",
+              "L2 call s_out = opset18.Add(s_in,x|)", "L2 call c_out = opset18.Less(s_out,x|)", "L2 assign c_in = c_out",
+              "L2 assign s_in = s_out", "L1 assign y = s_in", "L1 return y"] := by
+  decide +kernel
+
+/-- C13-DEAD-IF (fixed by 0215218): an If none of whose outputs is read anywhere is dropped from the text. -/
+theorem dead_if_dropped_fixed :
+    (exportModel ⟨false, false, false, false⟩ 3 ⟨"g", none, [("", 18)],
+        .mk ["x", "c"] ["y"] [] 0
+          [.mk "If" "" "" ["c"] ["unused"]
+             [("then_branch", .graph (.mk [] ["k1"] [] 0 [.mk "Neg" "" "" ["x"] ["k1"] []])),
+              ("else_branch", .graph (.mk [] ["k2"] [] 0 [.mk "Abs" "" "" ["x"] ["k2"] []]))],
+           .mk "Relu" "" "" ["x"] ["y"] []]⟩).toOption
+      = some ["deco ", "sig g(x,c|)", "L1 call y = opset18.Relu(x|)", "L1 return y"] := by
+  decide +kernel
+
+/-- C13-LOCAL-FUNCTIONS (fixed by 41fb399): a call of a model-local function printed above goes through the Python
+function (`helper(x, x)`), not through the Opset object. -/
+theorem local_function_call_fixed :
+    (exportModelF [] ⟨false, false, false, false⟩ 3
+      [⟨"helper", "my.dom", ["A", "B"], ["R"], [], ["A", "B", "R", "T"], [("", 18)],
+        [.mk "Relu" "" "" ["A"] ["T"] [], .mk "Add" "" "" ["T", "B"] ["R"] []]⟩]
+      ⟨"g", none, [("", 18), ("my.dom", 1)],
+       .mk ["x"] ["y"] [] 0 [.mk "helper" "my.dom" "" ["x", "x"] ["t"] [], .mk "Neg" "" "" ["t"] ["y"] []]⟩).toOption
+      = some ["deco my_dom1", "sig helper(A,B|)", "L1 call T = opset18.Relu(A|)", "L1 call R = opset18.Add(T,B|)",
+              "L1 return R", "deco ", "sig g(x|)", "L1 call t = helper(x,x|)", "L1 call y = opset18.Neg(t|)",
+              "L1 return y"] := by
   decide +kernel
 
 /-- C13-ATTR-INPUT-CLASH (fixed by 9e40403): the attribute parameters are registered before the inputs are
@@ -370,9 +433,9 @@ theorem powParen_only_pow_neg (op : String) (a : String) (rest : List String)
 fragment (`straightModel`: no initializers, standard-domain plain nodes with printable attributes, operator sugar
 only where it is symmetric), the string-level model tied to the real exporter returns the rendering of the
 structured program the next theorem is about. -/
-theorem export_prints_straight (o : Opts) (m : ModelP) (h : straightModel o m = true) (d : Nat) :
-    exportModel o (d + 1) m = .ok (renderProg (exportStraight o m)) :=
-  exportModel_straight o m h d
+theorem export_prints_straight (tys : List String) (o : Opts) (m : ModelP) (h : straightModel tys o m = true)
+    (d : Nat) : exportModelT tys o (d + 1) m = .ok (renderProg (exportStraight tys o m)) :=
+  exportModel_straight tys o m h d
 
 /-- **`export_roundtrip_partial`** — ONNX → Python → ONNX on the straight-line fragment, **without any hypothesis on
 the names** (since da27432 the exporter's renaming is injective by construction): the graph the converter reads
@@ -382,30 +445,31 @@ sugar through the converter's own `primop_map`, `None` ↦ absent input) compute
 ones renamed by the export's table.  *Partial* because of the fragment only: `straightModel` excludes the
 asymmetric sugar cases (`sugar_table_asymmetry`, `sugar_reads_back_without_attributes`), inlined constants,
 initializers and control flow (those are observed by the execution oracle, not proved). -/
-theorem export_roundtrip_partial {V : Type} (S : Sem V) (o : Opts) (m : ModelP)
-    (hfrag : straightModel o m = true) (args : List V) :
-    evalGraph S (progToGraph (exportStraight o m)) args = evalGraph S m.graph args
-    ∧ (progToGraph (exportStraight o m)).inputs = m.graph.inputs.map (tblF (finalTable o m))
-    ∧ (progToGraph (exportStraight o m)).outputs = m.graph.outputs.map (tblF (finalTable o m)) := by
-  have hsyn := progToGraph_exportStraight o m hfrag
+theorem export_roundtrip_partial {V : Type} (S : Sem V) (tys : List String) (o : Opts) (m : ModelP)
+    (hfrag : straightModel tys o m = true) (args : List V) :
+    evalGraph S (progToGraph (exportStraight tys o m)) args = evalGraph S m.graph args
+    ∧ (progToGraph (exportStraight tys o m)).inputs = m.graph.inputs.map (tblF (finalTable tys o m))
+    ∧ (progToGraph (exportStraight tys o m)).outputs = m.graph.outputs.map (tblF (finalTable tys o m)) := by
+  have hsyn := progToGraph_exportStraight tys o m hfrag
   have h' := hfrag
   unfold straightModel at h'
   simp only [Bool.and_eq_true, List.all_eq_true, bne_iff_ne, ne_eq] at h'
-  obtain ⟨⟨⟨⟨⟨⟨⟨⟨⟨⟨_, _⟩, _⟩, _⟩, _⟩, _⟩, hin⟩, hout⟩, _⟩, _⟩, _⟩ := h'
+  obtain ⟨⟨⟨⟨⟨⟨⟨⟨⟨⟨⟨_, _⟩, _⟩, _⟩, _⟩, _⟩, _⟩, hin⟩, hout⟩, _⟩, _⟩, _⟩ := h'
   rw [hsyn]
   refine ⟨?_, rfl, rfl⟩
-  exact evalGraph_ren S (tblF (finalTable o m)) m.graph (goodRen_finalTable o m hfrag) hin hout args
+  exact evalGraph_ren S (tblF (finalTable tys o m)) m.graph (goodRen_finalTable tys o m hfrag) hin hout args
 
 /-- the renaming of the theorem is injective on the graph's names and never yields the empty name -/
-theorem export_roundtrip_renaming_injective (o : Opts) (m : ModelP) (hfrag : straightModel o m = true) :
+theorem export_roundtrip_renaming_injective (tys : List String) (o : Opts) (m : ModelP)
+    (hfrag : straightModel tys o m = true) :
     ∀ a ∈ namesOfGraph 0 m.graph, ∀ b ∈ namesOfGraph 0 m.graph,
-      tblF (finalTable o m) a = tblF (finalTable o m) b → a = b :=
-  (goodRen_finalTable o m hfrag).inj
+      tblF (finalTable tys o m) a = tblF (finalTable tys o m) b → a = b :=
+  (goodRen_finalTable tys o m hfrag).inj
 
 /-- non-vacuity: a model of the fragment whose names collide after clean-up (`t.0` / `t_0`), need cleaning
 (`x.1`, `5`, `y:0`), with sugar on and an absent optional input -/
 example :
-    straightModel ⟨false, true, false, true⟩
+    straightModel ["FLOAT"] ⟨false, true, false, true⟩
       ⟨"g", none, [("", 18)],
        .mk ["x.1", "5"] ["y:0"] [] 0
         [.mk "Relu" "" "" ["x.1"] ["t.0"] [], .mk "Neg" "" "" ["x.1"] ["t_0"] [],
@@ -413,7 +477,7 @@ example :
          .mk "Clip" "" "" ["u", "", "5"] ["y:0"] [("dummy", .plain)]]⟩ = true := by decide
 
 example :
-    (exportStraight ⟨false, true, false, true⟩
+    (exportStraight ["FLOAT"] ⟨false, true, false, true⟩
       ⟨"g", none, [("", 18)],
        .mk ["x.1", "5"] ["y:0"] [] 0
         [.mk "Relu" "" "" ["x.1"] ["t.0"] [], .mk "Neg" "" "" ["x.1"] ["t_0"] [],
@@ -427,10 +491,10 @@ nodes holding the tensor (`exportModel_unfoldInits`), and an initializer *denote
 that `Constant` node (`evalGraphI`).  For every model whose unfolded form is in the straight-line fragment, every
 uninterpreted operator semantics and every argument list, the exporter prints `exportStraight` of the unfolded model
 and the graph read back computes what the original graph with its initializers computes. -/
-theorem export_roundtrip_inits_partial {V : Type} (S : Sem V) (o : Opts) (m : ModelP) (d : Nat)
-    (hskip : noneSkipped o m.graph = true) (hfrag : straightModel o m.unfoldInits = true) (args : List V) :
-    exportModel o (d + 1) m = .ok (renderProg (exportStraight o m.unfoldInits))
-    ∧ evalGraph S (progToGraph (exportStraight o m.unfoldInits)) args = evalGraphI S m.graph args := by
+theorem export_roundtrip_inits_partial {V : Type} (S : Sem V) (tys : List String) (o : Opts) (m : ModelP) (d : Nat)
+    (hskip : noneSkipped o m.graph = true) (hfrag : straightModel tys o m.unfoldInits = true) (args : List V) :
+    exportModelT tys o (d + 1) m = .ok (renderProg (exportStraight tys o m.unfoldInits))
+    ∧ evalGraph S (progToGraph (exportStraight tys o m.unfoldInits)) args = evalGraphI S m.graph args := by
   have hs : m.graph.nSparse = 0 := by
     have h' := hfrag
     unfold straightModel at h'
@@ -438,16 +502,16 @@ theorem export_roundtrip_inits_partial {V : Type} (S : Sem V) (o : Opts) (m : Mo
     have := h'.1.1.1.1.1.1.1.2
     simpa [ModelP.unfoldInits, initsAsNodes, Graph.nSparse] using this
   constructor
-  · rw [exportModel_unfoldInits o (d + 1) m hskip hs]
-    exact exportModel_straight o m.unfoldInits hfrag d
-  · exact (export_roundtrip_partial S o m.unfoldInits hfrag args).1
+  · rw [exportModel_unfoldInits tys o (d + 1) m hskip hs]
+    exact exportModel_straight tys o m.unfoldInits hfrag d
+  · exact (export_roundtrip_partial S tys o m.unfoldInits hfrag args).1
 
 /-- non-vacuity: a model with two initializers (one needing clean-up) in the extended fragment -/
 example :
     noneSkipped ⟨false, true, false, true⟩
       (.mk ["x"] ["y"] [("w.0", 3, 1, [3], true, "#0"), ("b", 1, 1, [], true, "#1")] 0
         [.mk "Mul" "" "" ["x", "w.0"] ["t"] [], .mk "Add" "" "" ["t", "b"] ["y"] []]) = true
-    ∧ straightModel ⟨false, true, false, true⟩
+    ∧ straightModel ["FLOAT"] ⟨false, true, false, true⟩
       (ModelP.unfoldInits ⟨"g", none, [("", 18)],
         .mk ["x"] ["y"] [("w.0", 3, 1, [3], true, "#0"), ("b", 1, 1, [], true, "#1")] 0
           [.mk "Mul" "" "" ["x", "w.0"] ["t"] [], .mk "Add" "" "" ["t", "b"] ["y"] []]⟩) = true := by
@@ -486,7 +550,7 @@ theorem sugar_with_attributes_refuted :
     let o : Opts := ⟨false, true, false, false⟩
     let m : ModelP := ⟨"g", none, [("", 18)],
       .mk ["x"] ["y"] [] 0 [.mk "Add" "" "" ["x", "x"] ["y"] [("fmod", .plain)]]⟩
-    evalGraph S (progToGraph (exportStraight o m)) [7] ≠ evalGraph S m.graph [7] := by
+    evalGraph S (progToGraph (exportStraight ["FLOAT"] o m)) [7] ≠ evalGraph S m.graph [7] := by
   decide
 
 /-- **C13-POW-NEG refuted statement**: a negative scalar literal printed in front of `**` is read by Python as
